@@ -20,6 +20,8 @@ type propCheck struct {
 
 var registry = map[string]*propCheck{}
 
+var writeBaselineFlag = flag.String("write-baseline", "", "write the list of functions of the analysed tree to this file (maintenance)")
+
 func register(id string, p *propCheck) { registry[id] = p }
 
 func main() {
@@ -74,7 +76,7 @@ func main() {
 			t0 = start
 		}
 		c := &Ctx{World: w, prop: id, tier: *tier, floors: map[string]int{}, funcsSeen: map[string]bool{},
-			explain: p.explain, notDecided: p.notDecided}
+			explain: p.explain, notDecided: p.notDecided, notes: append([]string{}, w.loadNotes...)}
 		runGuarded(c, p)
 		if c.finish(t0, seed) != 0 {
 			exit = 1
